@@ -132,8 +132,6 @@ UniqueIds(S) == \A a, b \in NonEmptyId(S) : a.id = b.id => a = b
 EnvInput(s) ==
   /\ Consistent(Listed(s), Remote(s), s.last)
   /\ UniqueIds(Listed(s)) /\ UniqueIds(Remote(s)) /\ UniqueIds(s.sec)
-  \* the listing is the replicated part of the store plus legacy entries that have no id
-  /\ NonEmptyId(Listed(s)) = {o \in s.sec : ~o.lo}
   /\ \A o \in s.sec : o.id # 0
   \* identifiers of local-only objects are fresh (UUIDs): never used by the primary
   /\ \A o \in s.sec : o.lo => o.id \notin {r.id : r \in Remote(s)}
@@ -142,8 +140,12 @@ EnvInput(s) ==
   /\ (s.kind = "acl" => \A o \in NonEmptyId(Listed(s) \cup Remote(s)) : o.h # 0)
   /\ \A o \in Listed(s) \cup Remote(s) : ~o.lo
 
+\* ... what the local listing (FetchLocal, ConfigEntries, FederationStateList) guarantees: it is the
+\* replicated part of the store - local-only objects are not listed - plus legacy entries that have no id
+ListingOK(s) == NonEmptyId(Listed(s)) = {o \in s.sec : ~o.lo}
+
 \* ... and what the hash functions (SetHash, HashConfigEntry) guarantee
-Env(s) == EnvInput(s) /\ HashFaithful(Listed(s) \cup Remote(s))
+Env(s) == EnvInput(s) /\ ListingOK(s) /\ HashFaithful(Listed(s) \cup Remote(s))
 
 (* ---- the property ---------------------------------------------------------- *)
 \* the replicated set of the secondary after the round equals the primary's (id + content)
